@@ -71,8 +71,15 @@ def narrow_arithmetic_stream(ctx):
     rng = ctx.rng('c15-narrow')
     for it in range(80 if ctx.quick else 800):
         n = rng.randint(3, 10)
-        mode = rng.choice(['int8', 'int16', 'float32', 'float32'])
-        if mode in ('int8', 'int16'):
+        mode = rng.choice(['int8', 'int16', 'float32', 'float32', 'fractional threshold'])
+        if mode == 'fractional threshold':
+            # signed integers around zero with a fractional threshold (a float, as 0.5 * sigma would be): the float copy
+            # of the same numbers is the reference
+            dt = rng.choice(['int8', 'int16', 'int32', 'int64'])
+            vals = [rng.randint(-5, 6) for _ in range(n)]
+            kw = {'min_value': rng.choice([np.float64, np.float32, float])(rng.choice([-2.5, -0.5, -3.25, 0.5, -1.75, 2.5])), 'min_delta': rng.choice([0, 1, 2])}
+            narrow, wide = np.array(vals, dtype=dt), [np.array(vals, dtype='float64')]
+        elif mode in ('int8', 'int16'):
             info = np.iinfo(mode)
             vals = [rng.randint(int(info.min) + 1, int(info.max)) for _ in range(n)]
             kw = {'min_value': int(info.min), 'min_delta': rng.choice([0, 1, rng.randint(1, int(info.max)), rng.randint(int(info.max), 2 * int(info.max))])}
@@ -96,8 +103,45 @@ def narrow_arithmetic_stream(ctx):
                                ['the same values as %s and as %s give different dendrograms: %s vs %s' % (mode, wide[0].dtype, got[0][0], ref[0])])
 
 
+def foreign_stdout_case(ctx):
+    """verbose=True in a process whose standard output, at the time astrodendro was imported, was a stream that has been
+    closed since (an import under output capture): the result is that of verbose=False.  One subprocess."""
+    import subprocess, sys, json
+    code = r'''
+import io, contextlib, sys, json
+buf = io.StringIO()
+with contextlib.redirect_stdout(buf):
+    import astrodendro
+    from astrodendro import Dendrogram
+buf.close()
+import numpy as np
+a = np.array([[1., 5., 2., 7., 1.], [2., 1., 6., 1., 3.]])
+out = {}
+for verbose in (False, True):
+    try:
+        d = Dendrogram.compute(a, min_value=0.5, verbose=verbose)
+        out[str(verbose)] = [d.index_map.tolist(), d.to_newick()]
+    except Exception as e:
+        out[str(verbose)] = 'raised %r' % (e,)
+sys.stderr.write('RESULT ' + json.dumps(out) + '\n')
+'''
+    env = dict(os.environ, PYTHONPATH=common.REPO, MPLBACKEND='Agg')
+    p = subprocess.run([sys.executable, '-c', code], capture_output=True, text=True, env=env, timeout=300)
+    line = [l for l in p.stderr.splitlines() if l.startswith('RESULT ')]
+    ctx.count('foreign_stdout_case')
+    ctx.case_done(None, ('foreign-stdout',))
+    if not line:
+        ctx.oracle_failure({'stream': 'stdout closed after import'}, ['the subprocess gave no result: %s' % p.stderr[-500:]])
+        return
+    out = json.loads(line[0][7:])
+    if out['True'] != out['False']:
+        ctx.oracle_failure({'stream': 'stdout closed after import', 'data': [[1, 5, 2, 7, 1], [2, 1, 6, 1, 3]]},
+                           ['compute(verbose=True) gives %s, compute(verbose=False) %s' % (out['True'], out['False'])])
+
+
 def explore(ctx):
     narrow_arithmetic_stream(ctx)
+    foreign_stdout_case(ctx)
     from . import grid_common
     grid_common.reused_adjacency_stream(ctx, 100 if ctx.quick else 1000)
     rng = ctx.rng('c15')
